@@ -650,6 +650,10 @@ func (c *Core) verifyParameters(ctx context.Context, params *consensusAPI.Parame
 	if err := pb.Unmarshal(params.Meta); err != nil {
 		return fmt.Errorf("malformed parameters: %w", err)
 	}
+	if pb.Block == nil || pb.Evidence == nil || pb.Validator == nil || pb.Version == nil {
+		// The conversion below dereferences all sub-messages.
+		return fmt.Errorf("malformed parameters: missing fields")
+	}
 	cmtparams := cmttypes.ConsensusParamsFromProto(pb)
 	if err := cmtparams.ValidateBasic(); err != nil {
 		return err
